@@ -1,0 +1,16 @@
+//! Verification hook (only with `--cfg paseto_verif`): lets a test harness force the
+//! derived AES-CTR counter block so that counter carry can be exercised.
+use std::cell::Cell;
+
+std::thread_local! {
+    static IV: Cell<Option<[u8; 16]>> = const { Cell::new(None) };
+}
+
+/// Force (or stop forcing) the derived counter block on this thread.
+pub fn set_iv(iv: Option<[u8; 16]>) {
+    IV.with(|c| c.set(iv));
+}
+
+pub(crate) fn iv_override(n2: [u8; 16]) -> [u8; 16] {
+    IV.with(|c| c.get()).unwrap_or(n2)
+}
